@@ -17,6 +17,9 @@ var c17Groups = [][]string{
 
 var c17Neutral = []string{"", "; comment", `[INSTRSET "i486p"]`, "X EQU 5", "EXTERN ext1", "lbl:", "DB 0x11"}
 
+// size-estimate defects that are C03's known findings (PUSH imm16: est 2, emit 3/5), per "mode|group"
+var c17KnownSizeDrift = map[string]int64{"16|6": -1, "32|6": -2}
+
 func c17Body(stmts []string) string {
 	var sb strings.Builder
 	for _, s := range stmts {
@@ -134,12 +137,13 @@ func c17Scenarios(tier string) []*core.Scenario {
 					sb.WriteString(stmtLine(prelude[i]))
 				}
 			}
-			sb.WriteString(c17Body(c17Groups[g]))
+			tail := "endlab:\n" + sentinelLine(0) + "\tDD endlab\n"
+			sb.WriteString(c17Body(c17Groups[g]) + tail)
 			eff := m
 			if eff == 0 {
 				eff = 16
 			}
-			ref := bitsLine(eff) + c17Body(c17Groups[g])
+			ref := bitsLine(eff) + c17Body(c17Groups[g]) + tail
 			return &core.Case{
 				Key:  fmt.Sprintf("BITS %d at %d|group=%d", m, pos, g),
 				Feat: feat("mode", fmt.Sprint(m), "pos", fmt.Sprint(pos), "group", fmt.Sprint(g)),
@@ -155,6 +159,20 @@ func c17Scenarios(tier string) []*core.Scenario {
 					v.NTKey = fmt.Sprintf("%d|%d|%x", m, pos, rs[0].Out)
 					if !bytes.Equal(rs[0].Out, rs[1].Out) {
 						v.Fails = []core.Fail{{Facet: "mode_scope", Dev: "prelude_changes_mode", Detail: fmt.Sprintf("got %x want %x", rs[0].Out, rs[1].Out)}}
+					}
+					// sized for the mode: the label behind the group must hold its real offset
+					for k, r := range rs[:2] {
+						if s0 := findSentinel(r.Out, 0); s0 >= 0 && s0+12 <= len(r.Out) {
+							if val := rdle(r.Out[s0+8 : s0+12]); val != int64(s0) {
+								d := val - int64(s0)
+								known := c17KnownSizeDrift[fmt.Sprintf("%d|%d", eff, g)]
+								if d != known {
+									v.Fails = append(v.Fails, core.Fail{Facet: "mode_sizing", Dev: fmt.Sprintf("label_drift:%+d", d-known),
+										Detail: fmt.Sprintf("program %d: the label after the group holds %d, it really is at offset %d (instructions sized for another mode?)", k, val, s0)})
+									break
+								}
+							}
+						}
 					}
 					return v
 				},
